@@ -2,12 +2,12 @@ SPECIFICATION MCSpec
 CONSTANTS
   AllSchedules = TRUE
   PermuteModules = FALSE
-  MaxP = 3
+  MaxP = 4
   Recvs = {"none", "const", "mut"}
   Rets = {"none", "u32", "ptr", "missing"}
   Addrs <- QAddrs
   Seconds = {"none", "distinct", "dup", "inherited"}
-  Bad = {0, 1, 2, 3}
+  Bad = {0, 1, 2, 3, 4}
   Singles = {"none", "type", "enum", "opaque"}
   EvalKinds = {"none", "scalar", "ptr", "arr", "struct", "missing", "two"}
   Ptrs = {4, 8}
